@@ -33,7 +33,7 @@ impl Prop for C05 {
 
     fn assumptions(&self) -> Vec<String> {
         vec![
-            "player-line tokens contain no space, quote, backslash or newline (the format tokenises on spaces)".into(),
+            "player-line fields contain no backslash or newline; a field with a space is quoted and has no quote character inside; a bare field does not begin with a quote it does not close; the reply is one datagram of at most 16384 bytes (the largest Quake message)".into(),
             "every line, including the last, is newline-terminated; no trailing NUL".into(),
             "numeric fields fit the response types (u8 maxclients, u16/i32 frags, u16 ping)".into(),
         ]
@@ -60,8 +60,8 @@ impl Prop for C05 {
         }
         o.nontrivial = !st.players.is_empty();
         let reply = st.encode();
-        if reply.len() > 1024 {
-            // DEFAULT_PACKET_SIZE: a real datagram would be truncated by the client; outside the domain
+        if reply.len() > crate::models::quake::MAX_REPLY {
+            // larger than a Quake status message can be; outside the domain
             o.label("oversize-skipped");
             o.nontrivial = false;
             return o;
